@@ -11,7 +11,7 @@ from rv.oracle.sim import Net
 
 RULE = (
     "three sources of restricted-subset text: (1) random ASTs in the fast parser's documented subset (any gate mix and arity, constants as gate operands, pin "
-    "ties and assigns, assigns of a net, blackboxes with unconnected pins, any statement order, random spaces/tabs/newlines everywhere except between ')' and ';', no comments), "
+    "ties and assigns, assigns of a net, blackboxes with unconnected pins, any statement order, random spaces/tabs/newlines everywhere (the module header is closed by ');'), named port lists with and without blanks, no comments), "
     "(2) circuit_to_verilog output for random circuits (gate-primitive form, constants, blackboxes with unconnected pins), (3) bundled library netlists that pass a checker of the "
     "documented restrictions; the fast parser is called directly or through from_file(fast=True) on a temporary file, blackbox definitions as list / tuple / set / dict view; verilog_to_circuit(fast=True) and the full parser must give the same inputs, outputs, blackbox registry, pin nets, and - after renaming the shared "
     "constant nodes - identical graphs and the same function at every output and bb_input. On a disagreement the generated AST's evaluator says which parser deviates. "
@@ -48,8 +48,9 @@ def restricted(text):
         elif re.match(r"(and|nand|or|nor|xor|xnor|buf|not)\b", s):
             if not re.fullmatch(r"[a-z]+\s+[A-Za-z_][A-Za-z\d_$]*\s*\([^()]*\)", s, re.S):
                 return "unnamed / multiple / expression primitive instance"
-    if re.search(r"\)\s+;", body):
-        return "whitespace between ) and ;"
+    hm = re.search(r"\bmodule\s+[^\s(]+\s*\(.*?\)(\s*);", body, re.S)
+    if not hm or hm.group(1):
+        return "module header not closed by );"
     if re.search(r"1'(bx|hx|b[zZ])", body):
         return "x/z constants"
     return None
